@@ -75,6 +75,8 @@ pub struct RxCfg {
     pub preamble_err: u32,
     /// power squelch thresholds (open, close); None = the builder's defaults
     pub squelch: Option<(f32, f32)>,
+    /// AGC gain limits (min, max); None = the builder's defaults
+    pub agc: Option<(f32, f32)>,
 }
 
 pub fn build(cfg: &RxCfg) -> SameReceiver {
@@ -84,6 +86,9 @@ pub fn build(cfg: &RxCfg) -> SameReceiver {
         .with_preamble_max_errors(cfg.preamble_err);
     if let Some((open, close)) = cfg.squelch {
         b.with_squelch_power(open, close);
+    }
+    if let Some((min, max)) = cfg.agc {
+        b.with_agc_gain_limits(min, max);
     }
     b.build()
 }
